@@ -9,7 +9,7 @@ open KVerif.TextBuf
 /-- `sendOne` in terms of the four pieces of state it reads. -/
 def sendOneB (ik : List Nat) (cw l r : Bool) (released : Bool) (o : ZchOut) : List OsEv :=
   let t := typeOsc ik o.osc
-  let sd := !cw && (released || (!l && !r))
+  let sd := (!l && !r) || (!cw && released)
   let ps : List OsEv := if sd then [.down KEY_LEFTSHIFT] else []
   let rs : List OsEv := if sd then [.up KEY_LEFTSHIFT] else []
   let core : List OsEv :=
@@ -45,7 +45,7 @@ user shifts down until `released`, AltGr up. -/
 theorem run_sendOneB (ik : List Nat) (cw l r released : Bool) (o : ZchOut) (rt : List Ch)
     (hk : CharKey o.osc) (hrel : released = true → cw = false) :
     (Buf.mk rt (l && !released) (r && !released) false).run (sendOneB ik cw l r released o) =
-      Buf.mk (stroke rt o.osc (if cw then (l || r) else (o.shift || (!released && (l || r)))) o.ag)
+      Buf.mk (stroke rt o.osc (if cw then (l || r || o.shift) else (o.shift || (!released && (l || r)))) o.ag)
         (l && !(released || !cw)) (r && !(released || !cw)) false := by
   obtain ⟨kind, ne, osc⟩ := o
   simp only at hk
@@ -65,7 +65,7 @@ theorem run_sendOne (s : Zchd) (released : Bool) (o : ZchOut) (b : Buf)
     LoopInv s (released || !s.capsWord) (b.run (sendOne s released o)) ∧
     (b.run (sendOne s released o)).rtext =
       stroke b.rtext o.osc
-        (if s.capsWord then (s.lsft || s.rsft) else (o.shift || (!released && (s.lsft || s.rsft)))) o.ag := by
+        (if s.capsWord then (s.lsft || s.rsft || o.shift) else (o.shift || (!released && (s.lsft || s.rsft)))) o.ag := by
   obtain ⟨rt, bl, br, ba⟩ := b
   obtain ⟨h1, h2, h3, h4⟩ := hi
   simp only at h1 h2 h3
